@@ -36,6 +36,14 @@ def toy1_class():
             return (self.D * (T ** 2 - self.T0 ** 2) * phi ** 2 - self.E * T * phi ** 3
                     + self.lam / 4 * phi ** 4 - self.a * T ** 4)
 
+        def grad(self, x, T):
+            phi = x[0]
+            return np.array([2 * self.D * (T ** 2 - self.T0 ** 2) * phi - 3 * self.E * T * phi ** 2 + self.lam * phi ** 3])
+
+        def hess(self, x, T):
+            phi = x[0]
+            return np.array([[2 * self.D * (T ** 2 - self.T0 ** 2) - 6 * self.E * T * phi + 3 * self.lam * phi ** 2]])
+
         # closed forms
         def phiBroken(self, T):
             disc = 9 * self.E ** 2 * T ** 2 - 8 * self.lam * self.D * (T ** 2 - self.T0 ** 2)
@@ -162,6 +170,28 @@ def toy2c_class():
             T = np.asarray(temperature)
             return (self.D * (T ** 2 - self.T0 ** 2) * phi ** 2 - self.E * T * phi ** 3 + self.lam / 4 * phi ** 4
                     + self.cs * (T ** 2 - self.Ts ** 2) / 2 * s ** 2 + self.ls / 4 * s ** 4 + self.kap / 2 * phi ** 2 * s ** 2 - self.a * T ** 4)
+
+        def grad(self, x, T):
+            """gradient w.r.t. the USER fields"""
+            phi = self.signs[0] * (x[self.perm[0]] - self.shift[self.perm[0]])
+            s = self.signs[1] * (x[self.perm[1]] - self.shift[self.perm[1]])
+            gphi = 2 * self.D * (T ** 2 - self.T0 ** 2) * phi - 3 * self.E * T * phi ** 2 + self.lam * phi ** 3 + self.kap * phi * s ** 2
+            gs = self.cs * (T ** 2 - self.Ts ** 2) * s + self.ls * s ** 3 + self.kap * phi ** 2 * s
+            g = np.zeros(2)
+            g[self.perm[0]], g[self.perm[1]] = self.signs[0] * gphi, self.signs[1] * gs
+            return g
+
+        def hess(self, x, T):
+            phi = self.signs[0] * (x[self.perm[0]] - self.shift[self.perm[0]])
+            s = self.signs[1] * (x[self.perm[1]] - self.shift[self.perm[1]])
+            hpp = 2 * self.D * (T ** 2 - self.T0 ** 2) - 6 * self.E * T * phi + 3 * self.lam * phi ** 2 + self.kap * s ** 2
+            hss = self.cs * (T ** 2 - self.Ts ** 2) + 3 * self.ls * s ** 2 + self.kap * phi ** 2
+            hps = 2 * self.kap * phi * s
+            H = np.zeros((2, 2))
+            a, b = self.perm
+            H[a, a], H[b, b] = hpp, hss
+            H[a, b] = H[b, a] = self.signs[0] * self.signs[1] * hps
+            return H
 
         def phiB(self, T):
             return self._pb(self.D, self.E, self.lam, self.T0, T)
